@@ -40,6 +40,7 @@ type c14Frame struct {
 type c14Goroutine struct {
 	id      int
 	status  string
+	note    string // printed instead of frames (the runtime's remark about a goroutine whose stack it cannot print)
 	frames  []c14Frame
 	created bool
 }
@@ -82,6 +83,9 @@ func c14Render(r *c14Report, d *c14Decor) string {
 			sb.WriteString("\n")
 		}
 		fmt.Fprintf(&sb, "goroutine %d%s [%s]:\n", g.id, d.gpExtra, g.status)
+		if g.note != "" {
+			sb.WriteString(g.note + "\n")
+		}
 		for _, f := range g.frames {
 			n++
 			sym := d.rename(f.sym)
@@ -217,9 +221,10 @@ func c14GenReport(t *rapid.T, real []uint64) *c14Report {
 	ng := rapid.IntRange(1, 4).Draw(t, "ngoroutines")
 	longNames := len(c14LongPCs) > 0 && rapid.IntRange(0, 3).Draw(t, "longNames") == 0
 	running := rapid.IntRange(0, ng-1).Draw(t, "runningIdx")
+	forceRunning := false // the goroutines after the first running one are running too
 	for i := 0; i < ng; i++ {
 		g := c14Goroutine{id: i + 1, status: rapid.SampledFrom([]string{"select", "chan receive", "force gc (idle)", "IO wait", "sleep", "runnable", "syscall"}).Draw(t, "status")}
-		if i == running || (i > running && rapid.IntRange(0, 3).Draw(t, "alsoRunning") == 0) {
+		if i == running || (i > running && (forceRunning || rapid.IntRange(0, 3).Draw(t, "alsoRunning") == 0)) {
 			g.status = "running"
 		}
 		if i == running && rapid.IntRange(0, 12).Draw(t, "noneRunning") == 0 {
@@ -228,6 +233,16 @@ func c14GenReport(t *rapid.T, real []uint64) *c14Report {
 		nf := rapid.OneOf(rapid.IntRange(0, 6), rapid.IntRange(0, 6), rapid.IntRange(14, 30)).Draw(t, "nframes")
 		if longNames {
 			nf = rapid.IntRange(15, 24).Draw(t, "nframesLong")
+		}
+		if i == running && g.status == "running" && i < ng-1 && rapid.IntRange(0, 7).Draw(t, "stackUnavailable") == 0 {
+			// The first running goroutine runs on another thread and the runtime prints a remark instead of its
+			// stack; a later goroutine is running too and has frames. The first running goroutine has no PCs:
+			// the report names no crash site (or is refused) - the other goroutine's frames are not the crash.
+			g.note = rapid.SampledFrom([]string{"\tgoroutine running on other thread; stack unavailable", "\tgoroutine running on other thread; stack unavailable",
+				"\tgoroutine in C code; stack unavailable", "\tstack unavailable"}).Draw(t, "unavailableNote")
+			nf = 0
+			forceRunning = true
+			vstats.Label("firstRunningStackUnavailable")
 		}
 		for j := 0; j < nf; j++ {
 			f := c14Frame{sym: rapid.SampledFrom(c14Syms).Draw(t, "sym"), hasPC: true, relpc: rapid.IntRange(0, 4).Draw(t, "relpc") != 0}
